@@ -58,10 +58,10 @@ def c17_allocfail(run, harnesses):
 def c06_guard(run, harnesses):
     """The behavioural suites again, with every tape buffer (and interpreter context) flush against an
     inaccessible page on the left or on the right: any access outside the owned allocation faults."""
-    n = 400 if run.tier == "quick" else 20000
+    n = 400 if run.tier == "quick" else 5000      # the guard allocator maps a fresh region per allocation: ~10 programs/s
     for side in ["left", "right"]:
         h = Harness("debug", binary="guard", env={"GUARD": side})
         for suite, judge, cnt in [("e2e", "program", n), ("roam", "program", n // 2)]:
             name = f"{suite}_guard_{side}"
-            reqs, impls, models = run.run_stream(h, name, suite=suite, count=cnt, timeout=3000)
+            reqs, impls, models = run.run_stream(h, name, suite=suite, count=cnt, timeout=9000)
             run.judge_stream(h, name, judge, reqs, impls, models)
